@@ -1,0 +1,236 @@
+//go:build verif
+
+package cdcn
+
+// Machine-checked contracts for package cdcn (comment-only; read by /verif/engine).
+
+// ---------------------------------------------------------------- tokens
+
+//@ declare tline(U) Int
+//@ declare tpos(U) Int
+//@ declare ttype(U) Int
+//@ declare tvalue(U) Str
+
+//@ type *token_
+//@   immutable line_ tline
+//@   immutable position_ tpos
+//@   immutable type_ ttype
+//@   immutable value_ tvalue
+
+//@ assume func Token
+//@   nopanic
+//@   ensures result != nil
+//@ assume func Scanner
+//@   nopanic
+//@   ensures result != nil
+//@ assume func Notation
+//@   nopanic
+//@   ensures result != nil
+
+//@ iface TokenClassLike.Make
+//@   nopanic
+//@   ensures fresh(result) && result != nil && tline(result) == line && tpos(result) == position && ttype(result) == type_ && tvalue(result) == value
+//@ iface TokenLike.GetLine
+//@   nopanic
+//@   ensures result == tline(this)
+//@ iface TokenLike.GetPosition
+//@   nopanic
+//@   ensures result == tpos(this)
+//@ iface TokenLike.GetType
+//@   nopanic
+//@   ensures result == ttype(this)
+//@ iface TokenLike.GetValue
+//@   nopanic
+//@   ensures result == tvalue(this)
+
+//@ func (*tokenClass_).Make
+//@   props C12
+//@   implements TokenClassLike.Make
+//@ func (*token_).GetLine
+//@   props C12
+//@   implements TokenLike.GetLine
+//@ func (*token_).GetPosition
+//@   props C12
+//@   implements TokenLike.GetPosition
+//@ func (*token_).GetType
+//@   props C12
+//@   implements TokenLike.GetType
+//@ func (*token_).GetValue
+//@   props C12
+//@   implements TokenLike.GetValue
+
+// ---------------------------------------------------------------- parser (C12: no Go runtime error)
+
+// the scanner only puts tokens built by Token().Make on the queue, each with a line inside the source
+//@ declare nlines(Str) Int
+//@ assume func strings.Split
+//@   nopanic
+//@   ensures fresh(result) && len(result) == nlines($1) && len(result) >= 1
+
+// assumption about the scanner's regular expressions: a hexadecimal token matches 0x[0-9a-f]+ (TokenType 7)
+//@ axiom hex_token_shape: forall t U :: { tvalue(t) } ttype(t) == 7 ==> len(tvalue(t)) >= 3
+//@ define pready(p) := p.next_ != nil && p.tokens_ != nil && p.next_ != p.tokens_ && (forall i :: 0 <= i && i < len(view(p.next_)) ==> view(p.next_)[i] != nil)
+
+//@ iface ScannerClassLike.FormatToken
+//@   requires token != nil
+//@   nopanic
+//@ iface ScannerClassLike.MatchToken
+//@   nopanic
+//@   ensures fresh(result) && result != nil
+//@ iface ScannerClassLike.Make
+//@   nopanic
+
+//@ func (*parser_).formatError
+//@   props C12
+//@   safe
+//@   requires token != nil
+//@   assumes 1 <= tline(token) && tline(token) <= nlines(this.source_)
+//@   loop 1:
+//@     invariant count >= 0
+//@     decreases tpos(token) - count
+//@ func (*parser_).generateSyntax
+//@   props C12
+//@   safe
+//@   nopanic
+//@   loop 1:
+//@     invariant -1 <= rangeindex && rangeindex <= len(names) - 1
+//@     decreases len(names) - rangeindex
+
+//@ type *parser_
+//@   hypothesis this.tokens_ != nil ==> nonnilq(this.tokens_)
+
+//@ func (*parser_).putBack
+//@   props C12 C11
+//@   safe
+//@   requires pready(this) && token != nil
+//@   modifies view(this.next_)
+//@   ensures[C12] pready(this) && view(this.next_) == insert(old(view(this.next_)), 0, token)
+//@ func (*parser_).getNextToken
+//@   props C12 C11
+//@   safe
+//@   requires pready(this)
+//@   modifies view(this.next_), view(this.tokens_)
+//@   ensures[C12] result != nil && pready(this)
+//@ func (*parser_).parseToken
+//@   props C12 C11
+//@   safe
+//@   requires pready(this)
+//@   modifies view(this.next_), view(this.tokens_)
+//@   ensures[C12] result.1 != nil && pready(this)
+//@   ensures[C12] result.2 ==> ttype(result.1) == expectedType && result.0 == tvalue(result.1)
+
+// every parse* method returns the token at which it stopped (never nil): the callers hand it to formatError
+//@ func (*parser_).parseIntrinsic
+//@   props C12 C11
+//@   safe
+//@   requires pready(this)
+//@   modifies view(this.next_), view(this.tokens_)
+//@   ensures[C12] result.1 != nil && pready(this)
+//@ func (*parser_).parseKey
+//@   props C12
+//@   safe
+//@   requires pready(this)
+//@   modifies view(this.next_), view(this.tokens_)
+//@   ensures[C12] result.1 != nil && pready(this)
+//@ func (*parser_).parseContext
+//@   props C12
+//@   safe
+//@   requires pready(this)
+//@   modifies view(this.next_), view(this.tokens_)
+//@   ensures[C12] result.1 != nil && pready(this)
+//@ func (*parser_).parseValue
+//@   props C12
+//@   safe
+//@   requires pready(this)
+//@   modifies view(this.next_), view(this.tokens_)
+//@   ensures[C12] result.1 != nil && pready(this)
+//@ func (*parser_).parseCollection
+//@   props C12
+//@   safe
+//@   requires pready(this)
+//@   modifies view(this.next_), view(this.tokens_)
+//@   ensures[C12] result.1 != nil && pready(this)
+//@   loop 1:
+//@     invariant pready(this) && token != nil && catalog != nil && fresh(catalog) && wellkeyed(view(catalog)) && allfresh(view(catalog)) && unchanged(aval) && rangeindex >= -1 && rangeindex < MAXLEN
+//@     decreases *
+//@   loop 2:
+//@     invariant pready(this) && token != nil && map_ != nil && fresh(map_) && rangeindex >= -1 && rangeindex < MAXLEN
+//@     decreases *
+//@ func (*parser_).parseSequence
+//@   props C12
+//@   safe
+//@   requires pready(this)
+//@   modifies view(this.next_), view(this.tokens_)
+//@   ensures[C12] result.1 != nil && pready(this)
+//@   ensures[C12] result.2 ==> result.0 != nil
+//@ func (*parser_).parseItems
+//@   props C12
+//@   safe
+//@   requires pready(this)
+//@   modifies view(this.next_), view(this.tokens_)
+//@   ensures[C12] result.1 != nil && pready(this)
+//@   ensures[C12] result.2 ==> result.0 != nil
+//@   loop 1:
+//@     invariant pready(this) && list != nil && fresh(list) && rangeindex >= -1 && rangeindex < MAXLEN
+//@     decreases *
+//@ func (*parser_).parseValues
+//@   props C12
+//@   safe
+//@   requires pready(this)
+//@   modifies view(this.next_), view(this.tokens_)
+//@   ensures[C12] result.1 != nil && pready(this)
+//@   ensures[C12] result.2 ==> result.0 != nil
+//@ func (*parser_).parseInlineValues
+//@   props C12
+//@   safe
+//@   requires pready(this)
+//@   modifies view(this.next_), view(this.tokens_)
+//@   ensures[C12] result.1 != nil && pready(this)
+//@   ensures[C12] result.2 ==> result.0 != nil
+//@   loop 1:
+//@     invariant pready(this) && token != nil && list != nil && fresh(list)
+//@     decreases *
+//@ func (*parser_).parseMultilineValues
+//@   props C12
+//@   safe
+//@   requires pready(this)
+//@   modifies view(this.next_), view(this.tokens_)
+//@   ensures[C12] result.1 != nil && pready(this)
+//@   ensures[C12] result.2 ==> result.0 != nil
+//@   loop 1:
+//@     invariant pready(this) && token != nil && list != nil && fresh(list)
+//@     decreases *
+//@ func (*parser_).parseAssociation
+//@   props C12
+//@   safe
+//@   requires pready(this)
+//@   modifies view(this.next_), view(this.tokens_)
+//@   ensures[C12] result.1 != nil && pready(this)
+//@   ensures[C12] result.2 ==> result.0 != nil
+//@ func (*parser_).parseAssociations
+//@   props C12
+//@   safe
+//@   requires pready(this)
+//@   modifies view(this.next_), view(this.tokens_)
+//@   ensures[C12] result.1 != nil && pready(this)
+//@   ensures[C12] result.2 ==> result.0 != nil && nonnil(view(result.0))
+//@ func (*parser_).parseInlineAssociations
+//@   props C12
+//@   safe
+//@   requires pready(this)
+//@   modifies view(this.next_), view(this.tokens_)
+//@   ensures[C12] result.1 != nil && pready(this)
+//@   ensures[C12] result.2 ==> result.0 != nil && nonnil(view(result.0))
+//@   loop 1:
+//@     invariant pready(this) && token != nil && catalog != nil && association != nil && fresh(catalog) && wellkeyed(view(catalog)) && allfresh(view(catalog)) && unchanged(aval)
+//@     decreases *
+//@ func (*parser_).parseMultilineAssociations
+//@   props C12
+//@   safe
+//@   requires pready(this)
+//@   modifies view(this.next_), view(this.tokens_)
+//@   ensures[C12] result.1 != nil && pready(this)
+//@   ensures[C12] result.2 ==> result.0 != nil && nonnil(view(result.0))
+//@   loop 1:
+//@     invariant pready(this) && token != nil && catalog != nil && association != nil && fresh(catalog) && wellkeyed(view(catalog)) && allfresh(view(catalog)) && unchanged(aval)
+//@     decreases *
